@@ -205,7 +205,7 @@ fn http_outcome(rng: &mut Rng, cup: bool, body: Vec<u8>, good_bias: u64) -> Http
         2 => HttpOutcome::Fail { kind: 'u', dw, dm },
         3 => HttpOutcome::Resp { status: *rng.pick(&[301u16, 404, 429, 500, 503, 199, 300]), retry_after: retry_after(rng), body, authentic: true, forgery: 0, dw, dm },
         4 => HttpOutcome::Resp { status: *rng.pick(&[500u16, 503]), retry_after: None, body: vec![], authentic: true, forgery: 0, dw, dm },
-        5 | 6 if cup => HttpOutcome::Resp { status: *rng.pick(&[200u16, 200, 500]), retry_after: retry_after(rng), body, authentic: false, forgery: rng.below(6) as u8, dw, dm },
+        5 | 6 if cup => HttpOutcome::Resp { status: *rng.pick(&[200u16, 200, 500]), retry_after: retry_after(rng), body, authentic: false, forgery: rng.below(16) as u8, dw, dm },
         7 => HttpOutcome::Resp { status: *rng.pick(&[200u16, 204, 299]), retry_after: retry_after(rng), body: b"{\"response\": truncated".to_vec(), authentic: true, forgery: 0, dw, dm },
         _ => HttpOutcome::Resp { status: 200, retry_after: None, body, authentic: true, forgery: 0, dw, dm },
     }
@@ -313,6 +313,11 @@ pub struct UnitCase { pub input: String, pub output: String, pub class: String }
 
 /// Run one history against the real state machine and cut it into per-unit cases.
 pub fn run_history(rng: &mut Rng, init: Init, nunits: usize, oneshot: bool) -> (Vec<UnitCase>, Carry) {
+    run_history_opt(rng, init, nunits, oneshot, false)
+}
+
+/// `healthy`: generate exactly the same history, but let every storage operation succeed.
+pub fn run_history_opt(rng: &mut Rng, init: Init, nunits: usize, oneshot: bool, healthy: bool) -> (Vec<UnitCase>, Carry) {
     let hub: H = Arc::new(Mutex::new(Hub::new(init.wall, init.mono)));
     { let mut h = hub.lock().unwrap(); h.committed = init.committed.clone(); h.cup_sign = init.cup; }
     let config = Config { updater: Updater { name: init.name.clone(), version: Version::from(init.uver) },
@@ -344,6 +349,7 @@ pub fn run_history(rng: &mut Rng, init: Init, nunits: usize, oneshot: bool) -> (
     let mut rplans: Vec<VecDeque<(RStep, (i128, i128))>> = vec![];
     for k in 0..nunits {
         let (mut env, path) = gen_unit(rng, &init, &init.presets, oneshot);
+        if healthy { for b in env.sfail.iter_mut() { *b = false; } }
         // control request ids carry the unit index
         for s in env.wake.iter_mut() { if let Step::Ctl(id, _) = s { *id += 1000 * k; } }
         for d in env.during.iter_mut() { d.0 += 1000 * k; }
@@ -460,7 +466,7 @@ pub fn run_history(rng: &mut Rng, init: Init, nunits: usize, oneshot: bool) -> (
 pub fn run(o: &Opts, rng: &mut Rng) -> Sink {
     let mut sink = Sink::new("sm");
     if o.only_corpus { return sink; }
-    let n = if o.thorough { 20_000 } else { 700 };
+    let n = if o.thorough { 20_000 } else { 2000 };
     for _ in 0..n {
         let oneshot = rng.chance(1, 4);
         let nunits = if oneshot { 1 } else { 1 + rng.below(4) as usize };
@@ -489,6 +495,51 @@ pub fn run(o: &Opts, rng: &mut Rng) -> Sink {
                 sink.case(c.input, Some(c.class), move || out);
             },
             Err(_) => { sink.bump("gen:panic"); sink.case("mode=panic".into(), None, || "panic".into()); }
+        }
+    }
+    sink
+}
+
+
+/// stream `smfault`: the implementation against itself — the same history once with the scripted
+/// storage failures and once with a storage that works; the requests sent and the events announced
+/// must be identical (the model's answer is the constant `same`: that is what
+/// `storage_failures_invisible_history` proves).
+pub fn run_fault(o: &Opts, rng: &mut Rng) -> Sink {
+    let mut sink = Sink::new("smfault");
+    if o.only_corpus { return sink; }
+    let n = if o.thorough { 6000 } else { 800 };
+    for _ in 0..n {
+        let seed = rng.next();
+        let go = |healthy: bool| -> (Vec<String>, usize, usize) {
+            let mut r = Rng::new(seed);
+            let oneshot = r.chance(1, 4);
+            let nunits = if oneshot { 1 } else { 1 + r.below(4) as usize };
+            let mut init = gen_init(&mut r);
+            // storage failures are the point here: make them frequent
+            let _ = &mut init;
+            let (cases, _) = run_history_opt(&mut r, init, nunits, oneshot, healthy);
+            let mut vis = vec![]; let mut nerr = 0;
+            for c in &cases {
+                for l in c.output.split('\t') {
+                    if l.starts_with("H ") || l.starts_with("E ") { vis.push(l.to_string()); }
+                    if l.starts_with("S ") && l.ends_with("-> err") { nerr += 1; }
+                }
+            }
+            (vis, nerr, cases.len())
+        };
+        let res = std::panic::catch_unwind(std::panic::AssertUnwindSafe(|| { let a = go(false); let b = go(true); (a, b) }));
+        match res {
+            Ok(((fa, nerr, nun), (he, _, _))) => {
+                let out = if fa == he { "same".to_string() } else {
+                    let k = fa.iter().zip(he.iter()).position(|(x, y)| x != y).unwrap_or(fa.len().min(he.len()));
+                    format!("differs at visible action {}: faulty=[{}] healthy=[{}]", k, fa.get(k).cloned().unwrap_or("<end>".into()).replace(' ', "_"), he.get(k).cloned().unwrap_or("<end>".into()).replace(' ', "_"))
+                };
+                sink.bump(&format!("storage-failures:{}", nerr.min(9)));
+                let class = if nerr > 0 { Some(format!("units{}/fails{}/len{}", nun, nerr.min(12), fa.len().min(40))) } else { None };
+                sink.case(format!("seed={}", seed), class, move || out);
+            }
+            Err(_) => { sink.bump("gen:panic"); sink.case(format!("seed={}", seed), None, || "panic".into()); }
         }
     }
     sink
